@@ -31,7 +31,7 @@ BUDGET = {'quick': 2400, 'thorough': 64000}
 
 PROFILE = {
     'weights': {'restart': 8, 'reboot': 2, 'down': 3, 'up': 2, 'idg': 2,
-                'cycle': 8, 'app': 12, 'state': 5},
+                'cycle': 8, 'app': 12, 'state': 5, 'downseq': 2},
     'force': ['restart', 'state'],
     'pre': (4, 12),
     'min_servers': 2,
